@@ -48,6 +48,10 @@ pub struct Case {
     /// low-level assembly only: Some(n) = n content packs in all (pack infos across 64 KiB)
     #[serde(default)]
     pub many_packs: Option<u16>,
+    /// low-level assembly only: the free data goes to the first content pack alone (so that its
+    /// length moves the pack-info array of the manifest byte by byte)
+    #[serde(default)]
+    pub free_first_only: bool,
 }
 
 pub struct C12;
@@ -110,12 +114,12 @@ impl Property for C12 {
     const ID: &'static str = "C12";
 
     fn rule() -> String {
-        "stateful: proptest-generated histories (0..12 ops) of set_location{listed pack k | unknown uuid, location in {empty, ASCII 0..213 bytes, multi-byte UTF-8 of exactly n<=213 bytes (incl. 211, 212, 213), path with .., the original}} interleaved with reopen, over manifests standalone (NoConcat) or inside a container file at small and large offsets (OneFile, TwoFiles; contents of generated size in front of it), 2-4 packs listed. The interpreter applies each op with tools::set_location and to a model map uuid->location. Oracle after every op: return value Ok(Some((kind, previous location))) / Ok(None) with a byte-identical file for an unknown uuid; the file differs from its predecessor only inside bytes 38..256 of that pack-info block (offset from the independent decoder); ManifestPack::new succeeds and its pack infos equal the model (other fields unchanged); ManifestPack::check, ContainerPack::check and the independent decoder's own blake3/CRC verification succeed; when the directory pack is reachable Container::new succeeds, check() is true, entries equal the model and contents of reachable packs equal the model. Non-trivial = >=2 rewrites one of which targets a pack rewritten before, or a multi-byte location at the length limit, or a manifest at offset > 0; distinct by history shape. One case in five is assembled with the low-level creators (0/30/70 KB of free data per pack, the directory pack declared after 0..3 content packs); fixed cases: manifests of 270 and 300 packs (pack infos across the 64 KiB buffer the check is computed through), the location of every pack rewritten in turn.".into()
+        "stateful: proptest-generated histories (0..12 ops) of set_location{listed pack k | unknown uuid, location in {empty, ASCII 0..213 bytes, multi-byte UTF-8 of exactly n<=213 bytes (incl. 211, 212, 213), path with .., the original}} interleaved with reopen, over manifests standalone (NoConcat) or inside a container file at small and large offsets (OneFile, TwoFiles; contents of generated size in front of it), 2-4 packs listed. The interpreter applies each op with tools::set_location and to a model map uuid->location. Oracle after every op: return value Ok(Some((kind, previous location))) / Ok(None) with a byte-identical file for an unknown uuid; the file differs from its predecessor only inside bytes 38..256 of that pack-info block (offset from the independent decoder); ManifestPack::new succeeds and its pack infos equal the model (other fields unchanged); ManifestPack::check, ContainerPack::check and the independent decoder's own blake3/CRC verification succeed; when the directory pack is reachable Container::new succeeds, check() is true, entries equal the model and contents of reachable packs equal the model. Non-trivial = >=2 rewrites one of which targets a pack rewritten before, or a multi-byte location at the length limit, or a manifest at offset > 0; distinct by history shape. One case in five is assembled with the low-level creators (0/30/70 KB of free data per pack, the directory pack declared after 0..3 content packs); fixed cases: manifests of 270 and 300 packs (pack infos across the 64 KiB buffer the check is computed through), the location of every pack rewritten in turn. 301 further fixed cases move the pack-info array one byte at a time (one pack carrying 0..=300 bytes of free data). One container is kept open from before the first rewrite; after every rewrite a manifest parsed through it must read the locations written and verify.".into()
     }
 
     fn cases(tier: Tier) -> u32 {
         match tier {
-            Tier::Quick => 2400,
+            Tier::Quick => 4800,
             Tier::Thorough => 150000,
         }
     }
@@ -129,7 +133,30 @@ impl Property for C12 {
             let history = (0..total)
                 .map(|k| Op::Set { pack: ((k * 65536 + total - 1) / total) as u16, unknown: false, loc: if k % 3 == 0 { Loc::Ascii((k % 214) as u8) } else { Loc::Utf8((k % 214) as u8) } })
                 .collect();
-            v.push(Case { packaging: Packaging::OneFile, comp: Comp::None, contents: vec![], extra: vec![], history, lowlevel_free_data: Some(free), dir_slot, many_packs: Some(n) });
+            v.push(Case { packaging: Packaging::OneFile, comp: Comp::None, contents: vec![], extra: vec![], history, lowlevel_free_data: Some(free), dir_slot, many_packs: Some(n), free_first_only: false });
+        }
+        // the pack-info array at every position modulo its own size (256 bytes) and modulo the
+        // 38/218 split of a pack info: one pack carries 0..=300 bytes of free data, which moves
+        // the array one byte at a time (and takes the free-data store across a one-byte length);
+        // each pack is relocated once, the first one twice
+        for n in 0..=300u32 {
+            let history = vec![
+                Op::Set { pack: 0, unknown: false, loc: Loc::Ascii((n % 214) as u8) },
+                Op::Set { pack: 30000, unknown: false, loc: Loc::Utf8((7 + n % 200) as u8) },
+                Op::Set { pack: 65535, unknown: false, loc: Loc::Ascii(213) },
+                Op::Set { pack: 0, unknown: false, loc: Loc::Original },
+            ];
+            v.push(Case {
+                packaging: Packaging::OneFile,
+                comp: Comp::None,
+                contents: vec![],
+                extra: vec![],
+                history,
+                lowlevel_free_data: Some(n),
+                dir_slot: (n % 3) as u8,
+                many_packs: None,
+                free_first_only: true,
+            });
         }
         v
     }
@@ -164,13 +191,13 @@ impl Property for C12 {
                 let sel = history.len() as u32 * 7 + contents.len() as u32;
                 let lowlevel_free_data = if sel % 5 == 3 { Some([0u32, 30_000, 70_000][(sel / 5 % 3) as usize]) } else { None };
                 let dir_slot = (sel / 15 % 4) as u8;
-                Case { packaging, comp, contents, extra, history, lowlevel_free_data, dir_slot, many_packs: None }
+                Case { packaging, comp, contents, extra, history, lowlevel_free_data, dir_slot, many_packs: None, free_first_only: false }
             })
             .boxed()
     }
 
     fn required_classes(_tier: Tier) -> Vec<&'static str> {
-        vec!["manifest-at-offset>0", "manifest-standalone", "rewrite-twice-same-pack", "utf8-at-limit", "unknown-uuid", "relocate-directory-pack", "restore-original", "packs-listed:4", "lowlevel-container", "pack-infos-beyond-64KiB", "directory-pack-not-declared-first", "many-packs", "respelled-location"]
+        vec!["manifest-at-offset>0", "manifest-standalone", "rewrite-twice-same-pack", "utf8-at-limit", "unknown-uuid", "relocate-directory-pack", "restore-original", "packs-listed:4", "lowlevel-container", "pack-infos-beyond-64KiB", "directory-pack-not-declared-first", "many-packs", "respelled-location", "pack-info-array-alignment-sweep"]
     }
 
     fn run(case: &Case, ctx: &Ctx) -> CaseResult {
@@ -205,7 +232,12 @@ impl Property for C12 {
                 if case.dir_slot > 0 {
                     info.class("directory-pack-not-declared-first");
                 }
-                build_lowlevel(&dir, "a.jbk", &packs, n as usize, &spec.dir, case.dir_slot as usize)?
+                if case.free_first_only {
+                    info.class("pack-info-array-alignment-sweep");
+                    build_lowlevel_fd(&dir, "a.jbk", &packs, &|k| if k == 0 { n as usize } else { 0 }, &spec.dir, case.dir_slot as usize)?
+                } else {
+                    build_lowlevel(&dir, "a.jbk", &packs, n as usize, &spec.dir, case.dir_slot as usize)?
+                }
             }
         };
         let path = built.main_path.clone();
@@ -237,6 +269,10 @@ impl Property for C12 {
         let mut rewritten: BTreeMap<usize, usize> = BTreeMap::new();
         let mut evals = 0u64;
         let mut nsets = 0;
+        // a reader opened once, before the history, and kept open across every rewrite (an
+        // application listing and relocating packs in one session): a manifest parsed again
+        // through it after a rewrite must show what was written, like a fresh opening does
+        let kept = jbk::tools::open_pack(&path).ok();
         let verify_state = |infos: &[InfoModel], data: &[u8], evals: &mut u64| -> Result<(), Failure> {
             // independent decoder: every CRC and the masked blake3 still verify
             let fd = match indep::decode_file(data) {
@@ -294,6 +330,35 @@ impl Property for C12 {
             match jbk::Pack::check(&mp) {
                 Ok(true) => {}
                 other => fail!("manifest-check", "ManifestPack::check after rewrite: {other:?}"),
+            }
+            if let Some(kept) = kept.as_ref() {
+                let mr = match kept.get_manifest_pack_reader() {
+                    Ok(Some(r)) => r,
+                    other => fail!("kept-reader-error", "manifest reader of the container kept open across the rewrite: {:?}", other.map(|o| o.is_some()).map_err(|e| e.to_string())),
+                };
+                let kmp = match jbk::reader::ManifestPack::new(mr) {
+                    Ok(m) => m,
+                    Err(e) => fail!("kept-reader-error", "ManifestPack::new through the container kept open across the rewrite: {e}"),
+                };
+                for im in infos {
+                    let loc = if im.kind == b'd' {
+                        Some(kmp.get_directory_pack_info().pack_location.as_str().to_string())
+                    } else {
+                        kmp.get_content_pack_info(im.pack_id.into()).map(|p| p.pack_location.as_str().to_string())
+                    };
+                    ensure!(
+                        loc.as_deref() == Some(im.location.as_str()),
+                        "kept-reader-stale-location",
+                        "pack {}: a manifest parsed after the rewrite through a container opened before it reads location {:?}, a fresh opening reads {:?}",
+                        im.pack_id,
+                        loc,
+                        im.location
+                    );
+                }
+                match jbk::Pack::check(&kmp) {
+                    Ok(true) => {}
+                    other => fail!("kept-reader-manifest-check", "ManifestPack::check through the container kept open across the rewrite: {other:?}"),
+                }
             }
             match cp.check() {
                 Ok(true) => {}
